@@ -8,6 +8,8 @@ PLAN = dict(
          "function+split_node, indexer_node, overwrite/write_once_node, input_node, async_node completed by a foreign thread; every receiver that may reject "
          "has only buffering predecessors or external try_put whose false is recorded) + 1-3 external putter threads x 1-8 operations "
          "(try_put / work / wait_for_all / idle gap / activate) x generated schedule, max_allowed_parallelism 1-4; "
+         "the limiter-directed leg generates only 'two or three buffering predecessors -> limiter_node threshold 1-2 with several successors -> worker that decrements early' "
+         "(shape of the repaired limiter lost wake-up, mutant C14-revert-limiter-lost-wakeup-fix); "
          "non-trivial = a message waited in a buffering node while its may-reject successor was at its concurrency limit / threshold and was processed by that "
          "successor afterwards (rejection followed by a pull, edge flipped), or an external try_put to a concurrency-limited node overlapped another thread's try_put / body start / body end at "
          "that node (race for the slot), or an async_node gateway was completed from the foreign thread; distinct = hash of program text + schedule descriptor",
@@ -20,15 +22,17 @@ PLAN = dict(
                           "the wait, counted as excluded; the witness leg runs without the waiver)",
                           "input_node -> write_once_node is outside the domain (once the value is set the input_node re-spawns its put task for ever and wait_for_all cannot return)",
                           "cancellation / exceptions inside node bodies are covered by C03, not generated here"],
-    floor=dict(quick=150, thorough=1500),
+    floor=dict(quick=300, thorough=10000),
     tiers=dict(
-        quick=[det("rel", H, "cs-rel", 16, 95, 4, tso=True, time_cap=28),
-               det("dbg", H, "cs-dbg", 16, 40, 4, tso=True, time_cap=22),
+        quick=[det("rel", H, "cs-rel", 16, 85, 4, tso=True, time_cap=26),
+               det("dbg", H, "cs-dbg", 16, 35, 4, tso=True, time_cap=20),
+               det("limiter-directed", H, "cs-rel", 6, 30, 4, tso=True, time_cap=12, args=["--limdir"]),
                det("witness-lightweight-wait-gap", H, "cs-rel", 2, 40, 4, tso=False, time_cap=20, args=["--witness"])],
         thorough=[det("rel", H, "cs-rel", 16, 2200, 5, tso=True, time_cap=330),
                   det("dbg", H, "cs-dbg", 16, 700, 5, tso=True, time_cap=240),
                   det("enum-wake", H, "cs-rel", 16, 40, 2, tso=True, time_cap=120, enum="wake", enum_cap=120),
                   det("enum-conflict", H, "cs-rel", 16, 40, 2, tso=True, time_cap=120, enum="conflict", enum_cap=120),
+                  det("limiter-directed", H, "cs-rel", 16, 300, 4, tso=True, time_cap=90, args=["--limdir"]),
                   det("witness-lightweight-wait-gap", H, "cs-rel", 2, 40, 4, tso=False, time_cap=20, args=["--witness"])],
     ),
 )
